@@ -80,7 +80,7 @@ Definition touches (s : step) (p : path) : bool :=
       match p with PFile (Shank k e') FBin => (k <? n)%nat && etype_eqb e e' | _ => false end
   | SAppend21 _ => path_eqb p (PFile Lf21 FBin)
   | SWriteMeta o => path_eqb p (PFile o FMeta)
-  | SVerify _ => false
+  | SVerify _ | SCheckBegin => false
   | SCompBegin o => path_eqb p (PFile o FTmp)
   | SCompEnd o => path_eqb p (PFile o FTmp) || path_eqb p (PFile o FChTmp)
   | SRenameCh o => path_eqb p (PFile o FChTmp) || path_eqb p (PFile o FCh)
@@ -109,6 +109,7 @@ Proof.
   - inversion H; subst; cbn. unfold upd. rewrite Ht. reflexivity.
   - destruct (present _ _); inversion H; subst; cbn. unfold upd. rewrite Ht. reflexivity.
   - destruct (present _ _); inversion H; subst; cbn; [|reflexivity]. unfold upd. rewrite Ht. reflexivity.
+  - inversion H; subst; reflexivity.
   - destruct (all_ap_complete _ _); inversion H; subst; reflexivity.
   - eapply unlink_frame; eauto.
   - destruct (present _ _); inversion H; subst; cbn. unfold upd. rewrite Ht. reflexivity.
@@ -133,7 +134,9 @@ Proof.
 Qed.
 
 (* only SVerify can set check_completed *)
-Definition is_verify (s : step) : bool := match s with SVerify _ => true | _ => false end.
+(* the steps that write check_completed *)
+Definition is_verify (s : step) : bool :=
+  match s with SVerify _ | SCheckBegin => true | _ => false end.
 
 Lemma unlink_checked : forall rs q mok rs', unlink rs q mok = Ok rs' -> r_checked rs' = r_checked rs.
 Proof.
@@ -164,15 +167,6 @@ Proof.
     + rewrite (IH _ _ _ H); [|intros; apply Hall; right; assumption].
       eapply step_checked; eauto. apply Hall. left; reflexivity.
     + inversion H; subst; reflexivity.
-Qed.
-
-(* check_completed never goes back to false within a run *)
-Lemma step_checked_mono : forall s rs rs',
-  step_sem s rs = Ok rs' -> r_checked rs = true -> r_checked rs' = true.
-Proof.
-  intros s rs rs' H Hc. destruct (is_verify s) eqn:Ev.
-  - destruct s; try discriminate. cbn in H. destruct (all_ap_complete _ _); inversion H; reflexivity.
-  - rewrite (step_checked _ _ _ H Ev). exact Hc.
 Qed.
 
 Lemma np1_noop : forall n w fs r k,
@@ -228,7 +222,7 @@ Qed.
 (* ---- shape of the NP2.4 steps before delete_NP24: they only concern shank folders --- *)
 Definition shank_step (s : step) : bool :=
   match s with
-  | SMkdir _ | SAppendSh _ _ _ | SVerify _ => true
+  | SMkdir _ | SAppendSh _ _ _ | SVerify _ | SCheckBegin => true
   | STrunc (PFile (Shank _ _) _) | SCorrupt (PFile (Shank _ _) _)
   | SUnlink (PFile (Shank _ _) _) _ => true
   | SWriteMeta (Shank _ _) | SCompBegin (Shank _ _) | SCompEnd (Shank _ _) | SRename (Shank _ _)
@@ -417,12 +411,17 @@ Proof.
   apply in_flat_map in Hs as [k [_ Hs]]. apply in_app_or in Hs as [Hs|Hs]; eapply touches_comp_meta; eauto.
 Qed.
 
-Lemma all_ap_complete_spec : forall fs n,
-  all_ap_complete fs n = true -> forall k, (k < n)%nat -> fs (PFile (Shank k Ap) FBin) = Complete.
+Lemma all_ap_complete_spec2 : forall fs n,
+  all_ap_complete fs n = true -> forall k, (k < n)%nat ->
+  fs (PFile (Shank k Ap) FBin) = Complete /\ fs (PFile (Shank k Ap) FMeta) = Complete.
 Proof.
   intros fs n H k Hk. unfold all_ap_complete in H. rewrite forallb_forall in H.
-  apply complete_true. apply H. apply in_seq. lia.
+  assert (Hin : In k (seq 0 n)) by (apply in_seq; lia).
+  apply H in Hin. apply andb_true_iff in Hin as [A B]. split; apply complete_true; assumption.
 Qed.
+Lemma all_ap_complete_spec : forall fs n,
+  all_ap_complete fs n = true -> forall k, (k < n)%nat -> fs (PFile (Shank k Ap) FBin) = Complete.
+Proof. intros fs n H k Hk. apply (all_ap_complete_spec2 fs n H k Hk). Qed.
 
 Lemma no_verify_in : forall l, forallb (fun s => negb (is_verify s)) l = true ->
   forall s, In s l -> is_verify s = false.
@@ -799,9 +798,15 @@ Proof.
   - cbn in H. inversion H; subst. congruence.
   - apply exec_cons_ok in H as [rs1 [Hs Hx]].
     destruct (is_verify s) eqn:Ev.
-    + destruct s; try discriminate. exists [], n, l, rs. split; [reflexivity|]. split; [reflexivity|].
-      cbn in Hs. destruct (all_ap_complete (r_fs rs) n) eqn:E; [|discriminate].
-      apply all_ap_complete_spec. exact E.
+    + destruct s; try discriminate.
+      * (* SCheckBegin: the flag is cleared, go on *)
+        cbn in Hs. inversion Hs; subst rs1; clear Hs.
+        destruct (IH (mkR (r_fs rs) false) rs' eq_refl Hx Hck) as [l1 [m [l2 [rsv [El [Hx1 Hall]]]]]].
+        exists (SCheckBegin :: l1), m, l2, rsv. split; [cbn; rewrite El; reflexivity|]. split; [|exact Hall].
+        cbn. exact Hx1.
+      * exists [], n, l, rs. split; [reflexivity|]. split; [reflexivity|].
+        cbn in Hs. destruct (all_ap_complete (r_fs rs) n) eqn:E; [|discriminate].
+        apply all_ap_complete_spec. exact E.
     + pose proof (step_checked _ _ _ Hs Ev) as Hc1. rewrite Hc in Hc1.
       destruct (IH _ _ Hc1 Hx Hck) as [l1 [m [l2 [rsv [El [Hx1 Hall]]]]]].
       exists (s :: l1), m, l2, rsv. split; [cbn; rewrite El; reflexivity|]. split; [|exact Hall].
@@ -1077,10 +1082,11 @@ Proof.
 Qed.
 
 Lemma all_ap_complete_intro : forall fs n,
-  (forall k, (k < n)%nat -> fs (PFile (Shank k Ap) FBin) = Complete) -> all_ap_complete fs n = true.
+  (forall k, (k < n)%nat -> fs (PFile (Shank k Ap) FBin) = Complete /\
+                            fs (PFile (Shank k Ap) FMeta) = Complete) -> all_ap_complete fs n = true.
 Proof.
   intros fs n H. unfold all_ap_complete. apply forallb_forall. intros k Hk. apply in_seq in Hk.
-  apply complete_true. apply H. lia.
+  destruct (H k) as [A B]; [lia|]. apply andb_true_iff. split; apply complete_true; assumption.
 Qed.
 
 Definition final24_ok (n : nat) (o : opts) (fs : fsys) : Prop :=
@@ -1114,7 +1120,8 @@ Proof.
   set (rs5 := if o_post o then mkR (r_fs rs4) true else rs4).
   assert (E5 : exec (if o_post o then verify24 n None else []) rs4 = (rs5, None)).
   { subst rs5. destruct (o_post o); [|reflexivity]. cbn.
-    rewrite all_ap_complete_intro; [reflexivity|]. intros k Hk. apply Hbins. exact Hk. }
+    rewrite all_ap_complete_intro; [reflexivity|]. intros k Hk. split; [apply Hbins; exact Hk|].
+    apply P4a. apply P3. apply in_seq. lia. }
   assert (F5 : r_fs rs5 = r_fs rs4) by (subst rs5; destruct (o_post o); reflexivity).
   assert (C5 : r_checked rs5 = o_post o).
   { subst rs5. cbn in C1. destruct (o_post o); [reflexivity|]. congruence. }
@@ -1202,23 +1209,23 @@ Proof.
   exists rs'. split; [exact Hx|]. split; [exact Hc|]. intros q Hq. rewrite Hf by exact Hq. cbn. upd_simp. reflexivity.
 Qed.
 
-Lemma forced21_exec : forall w' o tf fs,
+Lemma forced21_exec_gen : forall w' o tf fs ck,
   (tf = FBin -> fs (PFile Orig FBin) = Complete) ->
-  exists rs', exec (plan21 (S w') o true tf fs) (mkR fs false) = (rs', None) /\
+  exists rs', exec (plan21 (S w') o true tf fs) (mkR fs ck) = (rs', None) /\
     r_fs rs' (PFile Lf21 FMeta) = Complete /\ out_ok (o_comp o) (r_fs rs') Lf21 /\
     (if o_comp o && fkind_eqb tf FBin then out_ok true (r_fs rs') Orig
      else forall f, r_fs rs' (PFile Orig f) = fs (PFile Orig f)) /\
     r_fs rs' (PFile Orig FMeta) = fs (PFile Orig FMeta).
 Proof.
-  intros w' o tf fs Htf. unfold plan21, already21. rewrite andb_false_r.
+  intros w' o tf fs ck Htf. unfold plan21, already21. rewrite andb_false_r.
   (* head: truncate, windows, metadata *)
-  assert (H1 : exists rs1, exec ([STrunc (PFile Lf21 FBin)] ++ wins21 (S w') ++ [SWriteMeta Lf21]) (mkR fs false)
+  assert (H1 : exists rs1, exec ([STrunc (PFile Lf21 FBin)] ++ wins21 (S w') ++ [SWriteMeta Lf21]) (mkR fs ck)
                  = (rs1, None) /\ r_fs rs1 (PFile Lf21 FBin) = Complete /\
                  r_fs rs1 (PFile Lf21 FMeta) = Complete /\
                  forall f, r_fs rs1 (PFile Orig f) = fs (PFile Orig f)).
   { cbn [app exec step_sem dir_ok r_fs r_checked]. unfold wins21.
     destruct (appends21_run (map (fun _ : nat => SAppend21 false) (seq 0 w'))
-                (mkR (upd fs (PFile Lf21 FBin) Partial) false)) as [rsa [Ha [_ Fa]]].
+                (mkR (upd fs (PFile Lf21 FBin) Partial) ck)) as [rsa [Ha [_ Fa]]].
     { apply forallb_forall. intros s Hs. apply in_map_iff in Hs as [x [<- _]]. reflexivity. }
     rewrite <- app_assoc, exec_app, Ha. cbn [app exec step_sem r_fs r_checked].
     unfold present. upd_simp. cbn [fstate_eqb negb].
@@ -1250,6 +1257,15 @@ Proof.
     eapply exec_frame; [exact E2|]. intros s Hs. unfold comp_core in Hs. cbn in Hs.
     repeat (destruct Hs as [<-|Hs]; [reflexivity|]). destruct Hs.
 Qed.
+
+Lemma forced21_exec : forall w' o tf fs,
+  (tf = FBin -> fs (PFile Orig FBin) = Complete) ->
+  exists rs', exec (plan21 (S w') o true tf fs) (mkR fs false) = (rs', None) /\
+    r_fs rs' (PFile Lf21 FMeta) = Complete /\ out_ok (o_comp o) (r_fs rs') Lf21 /\
+    (if o_comp o && fkind_eqb tf FBin then out_ok true (r_fs rs') Orig
+     else forall f, r_fs rs' (PFile Orig f) = fs (PFile Orig f)) /\
+    r_fs rs' (PFile Orig FMeta) = fs (PFile Orig FMeta).
+Proof. intros. apply forced21_exec_gen. assumption. Qed.
 
 (* top level *)
 Lemma go_full : forall plan fs st al rs',
@@ -1302,59 +1318,114 @@ Proof.
 Qed.
 
 (* ====================================================================== *)
-(* Several method calls on ONE converter object                              *)
+(* Several method calls on ONE converter object (code after 899cbec,         *)
+(* 8b318aa, 8925238)                                                         *)
 (* ====================================================================== *)
-Lemma exec_executed : forall l rs rs' e,
-  exec l rs = (rs', e) -> exec (firstn (nexec l rs) l) rs = (rs', None).
+Definition data_ok (fs : fsys) (o : owner) : Prop :=
+  fs (PFile o FBin) = Complete \/ (fs (PFile o FCbin) = Complete /\ fs (PFile o FCh) = Complete).
+
+(* compression of one file, interrupted anywhere: the data stay complete as .bin or as .cbin+.ch *)
+Lemma comp_core_prefix : forall o k rs rs',
+  r_fs rs (PFile o FBin) = Complete ->
+  exec (firstn k (comp_core o)) rs = (rs', None) -> data_ok (r_fs rs') o.
 Proof.
-  induction l as [|s l IH]; intros rs rs' e H.
-  - cbn in *. inversion H; reflexivity.
-  - cbn [exec nexec] in *. destruct (step_sem s rs) as [rs1|e1] eqn:E.
-    + cbn [firstn exec]. rewrite E. eapply IH; eauto.
-    + inversion H; subst. reflexivity.
+  intros o k rs rs' Hb H. unfold comp_core in H. unfold data_ok.
+  destruct k as [|[|[|[|[|k]]]]]; cbn [firstn exec] in H.
+  - inversion H; subst. left; exact Hb.
+  - rewrite sem_compbegin in H by (rewrite Hb; discriminate). inversion H; subst; cbn. upd_simp. auto.
+  - rewrite sem_compbegin in H by (rewrite Hb; discriminate).
+    rewrite sem_compend in H by (cbn; upd_simp; exact Hb). inversion H; subst; cbn. upd_simp. auto.
+  - rewrite sem_compbegin in H by (rewrite Hb; discriminate).
+    rewrite sem_compend in H by (cbn; upd_simp; exact Hb).
+    rewrite sem_renamech in H by (cbn; upd_simp; discriminate). inversion H; subst; cbn. upd_simp. auto.
+  - rewrite sem_compbegin in H by (rewrite Hb; discriminate).
+    rewrite sem_compend in H by (cbn; upd_simp; exact Hb).
+    rewrite sem_renamech in H by (cbn; upd_simp; discriminate).
+    rewrite sem_rename in H by (cbn; upd_simp; discriminate). inversion H; subst; cbn. upd_simp. auto.
+  - rewrite firstn_nil in H.
+    rewrite sem_compbegin in H by (rewrite Hb; discriminate).
+    rewrite sem_compend in H by (cbn; upd_simp; exact Hb).
+    rewrite sem_renamech in H by (cbn; upd_simp; discriminate).
+    rewrite sem_rename in H by (cbn; upd_simp; discriminate).
+    rewrite sem_unlink_present in H by (cbn; upd_simp; rewrite Hb; discriminate).
+    inversion H; subst; cbn. upd_simp. auto.
 Qed.
 
-Lemma obj_call_exec : forall kd n w ob fs c ob' o,
-  obj_call kd n w ob fs c = (ob', o) ->
-  exec (out_trace o) (mkR fs (ob_checked ob)) = (mkR (out_fs o) (ob_checked ob'), None).
+Lemma comp_steps_prefix : forall ow o k rs rs',
+  r_fs rs (PFile o FBin) = Complete ->
+  exec (firstn k (comp_steps ow o)) rs = (rs', None) -> data_ok (r_fs rs') o.
 Proof.
-  intros kd n w ob fs c ob' o H. unfold obj_call in H.
-  destruct (call_plan kd n w ob fs c) as [[[plan st] al]|].
-  - cbv zeta in H.
-    destruct (exec (match call_crash c with Some k => firstn k plan | None => plan end)
-                   (mkR fs (ob_checked ob))) as [rs' e] eqn:E.
-    inversion H; subst; cbn [out_trace out_fs ob_checked].
-    rewrite (exec_executed _ _ _ _ E). destruct rs'; reflexivity.
-  - inversion H; subst. reflexivity.
+  intros ow o k rs rs' Hb H. unfold comp_steps in H.
+  change [SCompBegin o; SCompEnd o; SRenameCh o; SRename o; SUnlink (PFile o FBin) false] with (comp_core o) in H.
+  destruct ow; cbn [app] in H; [|eapply comp_core_prefix; eauto].
+  destruct k as [|k]; cbn [firstn] in H.
+  - cbn in H. inversion H; subst. left; exact Hb.
+  - apply exec_cons_ok in H as [rs1 [Hs Hx]].
+    eapply comp_core_prefix; [|exact Hx].
+    rewrite (step_frame _ _ _ (PFile o FBin) Hs); [exact Hb|]. cbn [touches]. apply path_eqb_neq. congruence.
 Qed.
 
-Lemma obj_steps_exec : forall kd n w cs ob fs,
-  exec (obj_steps kd n w ob fs cs) (mkR fs (ob_checked ob)) =
-  (mkR (snd (obj_after kd n w ob fs cs)) (ob_checked (fst (obj_after kd n w ob fs cs))), None).
+Lemma data_ok_frame : forall fs fs' o,
+  (forall f, fs' (PFile o f) = fs (PFile o f)) -> data_ok fs o -> data_ok fs' o.
+Proof. intros fs fs' o Hf H. unfold data_ok in *. rewrite !Hf. exact H. Qed.
+
+Lemma compk_prefix : forall ow k c rs rs',
+  r_fs rs (PFile (Shank k Ap) FBin) = Complete ->
+  exec (firstn c (compk ow k)) rs = (rs', None) -> data_ok (r_fs rs') (Shank k Ap).
 Proof.
-  intros kd n w. induction cs as [|c cs IH]; intros ob fs; cbn [obj_steps obj_after].
-  - reflexivity.
-  - destruct (obj_call kd n w ob fs c) as [ob' o] eqn:E.
-    rewrite exec_app, (obj_call_exec _ _ _ _ _ _ _ _ E). apply IH.
+  intros ow k c rs rs' Hb H. unfold compk in H. rewrite firstn_app in H.
+  apply exec_app_ok in H as [rs1 [H1 H2]].
+  eapply data_ok_frame; [|eapply comp_steps_prefix; eauto].
+  intros f. eapply exec_frame; [exact H2|]. intros s Hs. apply In_firstn in Hs.
+  eapply touches_comp_other; eauto. congruence.
 Qed.
 
-(* check_completed true  ==>  some check_NP24 step executed by this object found every shank
-   ap.bin complete.  (Not: the LAST one — see the _refuted theorems.) *)
-Lemma object_check_completed_sound : forall kd n w cs ob fs,
-  ob_checked ob = false -> ob_checked (fst (obj_after kd n w ob fs cs)) = true ->
-  exists l1 m l2 rsv, obj_steps kd n w ob fs cs = l1 ++ SVerify m :: l2 /\
-    exec l1 (mkR fs false) = (rsv, None) /\
-    forall k, (k < m)%nat -> r_fs rsv (PFile (Shank k Ap) FBin) = Complete.
+Lemma comp_list_prefix : forall ow ks c rs rs',
+  NoDup ks -> (forall k, In k ks -> r_fs rs (PFile (Shank k Ap) FBin) = Complete) ->
+  exec (firstn c (flat_map (compk ow) ks)) rs = (rs', None) ->
+  forall k, In k ks -> data_ok (r_fs rs') (Shank k Ap).
 Proof.
-  intros kd n w cs ob fs Hc H. pose proof (obj_steps_exec kd n w cs ob fs) as E. rewrite Hc in E.
-  exact (check_completed_sound (obj_steps kd n w ob fs cs) (mkR fs false) _ eq_refl E H).
+  intros ow. induction ks as [|k0 ks IH]; intros c rs rs' Hnd Hb H k Hin; [destruct Hin|].
+  cbn [flat_map] in H. rewrite firstn_app in H. apply exec_app_ok in H as [rs1 [H1 H2]].
+  inversion Hnd as [|k0' ks' Hnotin Hnd']; subst.
+  destruct Hin as [->|Hin].
+  - eapply data_ok_frame; [|eapply compk_prefix; [apply Hb; left; reflexivity | exact H1]].
+    intros f. eapply exec_frame; [exact H2|]. intros s Hs. apply In_firstn in Hs.
+    apply in_flat_map in Hs as [k' [Hk' Hs]].
+    eapply touches_compk_other; eauto. intros e f' Heq; inversion Heq; subst; contradiction.
+  - apply (IH (c - length (compk ow k0))%nat rs1 rs' Hnd'); auto. intros k' Hk'.
+    erewrite exec_frame; [apply Hb; right; exact Hk' | exact H1 |].
+    intros s Hs. apply In_firstn in Hs. eapply touches_compk_other; eauto.
+    intros e f Heq; inversion Heq; subst; contradiction.
 Qed.
 
-(* --- sequences of process() calls with fixed options ----------------------------- *)
-Definition objJ (n : nat) (ob : obj) (fs : fsys) : Prop :=
-  (o_post (ob_opts ob) = false -> ob_checked ob = false) /\
-  (ob_tf ob = FBin \/ ob_tf ob = FCbin) /\
-  (ob_closed ob = false -> inv NP24 n fs /\ orig_ok fs /\ fs (PFile Orig (ob_tf ob)) <> Absent).
+(* starting from a cleared flag, only a successful comparison sets it *)
+Definition is_sverify (s : step) : bool := match s with SVerify _ => true | _ => false end.
+Lemma step_checked_false : forall s rs rs',
+  step_sem s rs = Ok rs' -> is_sverify s = false -> r_checked rs = false -> r_checked rs' = false.
+Proof.
+  intros s rs rs' H Hv Hc. destruct (is_verify s) eqn:Ev.
+  - destruct s; try discriminate. cbn in H. inversion H; reflexivity.
+  - rewrite (step_checked _ _ _ H Ev). exact Hc.
+Qed.
+Lemma exec_checked_false : forall l rs rs' e,
+  exec l rs = (rs', e) -> forallb (fun s => negb (is_sverify s)) l = true ->
+  r_checked rs = false -> r_checked rs' = false.
+Proof.
+  induction l as [|s l IH]; intros rs rs' e H Hall Hc; cbn in H.
+  - inversion H; subst; exact Hc.
+  - cbn in Hall. apply andb_true_iff in Hall as [Hs Hall]. apply negb_true_iff in Hs.
+    destruct (step_sem s rs) as [rs1|e1] eqn:E.
+    + eapply IH; eauto. eapply step_checked_false; eauto.
+    + inversion H; subst; exact Hc.
+Qed.
+
+Lemma noverify_nosverify : forall l,
+  forallb (fun s => negb (is_verify s)) l = true -> forallb (fun s => negb (is_sverify s)) l = true.
+Proof.
+  intros l H. apply forallb_forall. intros s Hs. rewrite forallb_forall in H. specialize (H s Hs).
+  destruct s; try reflexivity. discriminate.
+Qed.
 
 Lemma metas24_noverify : forall n, forallb (fun s => negb (is_verify s)) (metas24 n) = true.
 Proof.
@@ -1370,97 +1441,255 @@ Proof.
   destruct (o_comp o); [rewrite comp24_noverify|]; destruct (o_del o); reflexivity.
 Qed.
 
-Lemma obj_process_step : forall n w ob fs ow cr cp ob' o,
-  objJ n ob fs -> obj_call NP24 n w ob fs (CProcess ow cr cp) = (ob', o) ->
-  objJ n ob' (out_fs o) /\ (ob_closed ob = false -> inv NP24 n (out_fs o)).
+Definition pre_verify (n w : nat) (ow : bool) (corrupt : option nat) (fs : fsys) : list step :=
+  prep24 ow fs n ++ wins24 n w ++ metas24 n
+  ++ match corrupt with Some k => [SCorrupt (PFile (Shank k Ap) FBin)] | None => [] end ++ [SCheckBegin].
+
+Lemma plan24_split : forall n w o ow corrupt tf fs,
+  already24 ow fs n = false -> o_post o = true ->
+  plan24 n w o ow corrupt tf fs =
+  pre_verify n w ow corrupt fs ++ SVerify n :: ((if o_comp o then comp24 ow n else []) ++ del24 o tf).
 Proof.
-  intros n w ob fs ow cr cp ob' o [Jc [Jtf Jo]] H. unfold obj_call in H. cbn [call_plan call_crash] in H.
-  cbv zeta in H.
-  match type of H with context [exec ?pl0 _] => set (pl := pl0) in * end.
-  destruct (exec pl (mkR fs (ob_checked ob))) as [rs' e] eqn:E.
-  inversion H; subst ob' o; clear H. cbn [out_fs ob_opts ob_checked ob_tf ob_closed].
+  intros n w o ow corrupt tf fs Hal Hp. unfold plan24, body24, verify24, pre_verify. rewrite Hal, Hp.
+  destruct corrupt; cbn [app]; repeat rewrite <- app_assoc; cbn [app]; reflexivity.
+Qed.
+
+Lemma pre_verify_nosverify : forall n w ow corrupt fs,
+  forallb (fun s => negb (is_sverify s)) (pre_verify n w ow corrupt fs) = true.
+Proof.
+  intros. unfold pre_verify. repeat rewrite forallb_app.
+  rewrite (noverify_nosverify _ (prep24_noverify ow fs n)), (noverify_nosverify _ (wins24_noverify n w)),
+          (noverify_nosverify _ (metas24_noverify n)).
+  destruct corrupt; reflexivity.
+Qed.
+
+(* K: a process() call stopped anywhere: check_completed set ==> every shank's ap data (as .bin or
+   as .cbin+.ch) and metadata are complete at that moment *)
+Lemma plan24_prefix_K : forall n w o ow corrupt tf fs c rs',
+  exec (firstn c (plan24 n w o ow corrupt tf fs)) (mkR fs false) = (rs', None) ->
+  r_checked rs' = true -> shanks_ok n (r_fs rs').
+Proof.
+  intros n w o ow corrupt tf fs c rs' H Hck.
+  destruct (o_post o) eqn:Ep.
+  2:{ exfalso. assert (r_checked rs' = false); [|congruence].
+      eapply (exec_checked_false _ (mkR fs false)); [exact H | | reflexivity].
+      apply forallb_firstn. apply noverify_nosverify. apply plan24_noverify. exact Ep. }
+  destruct (already24 ow fs n) eqn:Eal.
+  { exfalso. assert (r_checked rs' = false); [|congruence].
+    unfold plan24 in H. rewrite Eal in H.
+    eapply (exec_checked_false _ (mkR fs false)); [exact H | | reflexivity].
+    apply forallb_firstn. apply noverify_nosverify. apply prep24_noverify. }
+  rewrite (plan24_split _ _ _ _ _ _ _ Eal Ep) in H. rewrite firstn_app in H.
+  apply exec_app_ok in H as [rs1 [H1 H2]].
+  assert (Hc1 : r_checked rs1 = false).
+  { eapply (exec_checked_false _ (mkR fs false)); [exact H1 | | reflexivity].
+    apply forallb_firstn. apply pre_verify_nosverify. }
+  destruct (c - length (pre_verify n w ow corrupt fs))%nat as [|m].
+  { cbn in H2. inversion H2; subst. congruence. }
+  cbn [firstn] in H2. apply exec_cons_ok in H2 as [rsV [HsV H3]].
+  cbn in HsV. destruct (all_ap_complete (r_fs rs1) n) eqn:Eall; [|discriminate].
+  inversion HsV; subst rsV; clear HsV.
+  pose proof (all_ap_complete_spec2 _ _ Eall) as Hall.
+  rewrite firstn_app in H3. apply exec_app_ok in H3 as [rs2 [HC HD]].
+  assert (Hok2 : shanks_ok n (r_fs rs2)).
+  { intros k Hk. destruct (Hall k Hk) as [Hb Hm]. split.
+    - destruct (o_comp o).
+      + unfold comp24 in HC.
+        change (fun k0 => comp_steps ow (Shank k0 Ap) ++ comp_steps ow (Shank k0 Lf)) with (compk ow) in HC.
+        apply (comp_list_prefix ow (seq 0 n) _ _ _ (seq_NoDup n 0)) with (k := k) in HC.
+        * exact HC.
+        * intros k' Hk'. apply in_seq in Hk'. apply Hall. lia.
+        * apply in_seq. lia.
+      + rewrite firstn_nil in HC. cbn in HC. inversion HC; subst. left. exact Hb.
+    - rewrite (exec_frame _ _ _ _ (PFile (Shank k Ap) FMeta) HC); [exact Hm|]. intros s Hs. apply In_firstn in Hs.
+      destruct (o_comp o); [|destruct Hs]. unfold comp24 in Hs.
+      apply in_flat_map in Hs as [k' [_ Hs]]. apply in_app_or in Hs as [Hs|Hs]; eapply touches_comp_meta; eauto. }
+  (* delete_NP24 does not touch shank files *)
+  intros k Hk. specialize (Hok2 k Hk). unfold shank_ok in *.
+  assert (Hf : forall e f, r_fs rs' (PFile (Shank k e) f) = r_fs rs2 (PFile (Shank k e) f)).
+  { intros e f. eapply exec_frame; [exact HD|]. intros s Hs. apply In_firstn in Hs.
+    unfold del24 in Hs. destruct (o_del o); [|destruct Hs]. destruct Hs as [<-|[]]. cbn [touches].
+    apply path_eqb_neq. congruence. }
+  rewrite !Hf. exact Hok2.
+Qed.
+
+(* ---- the invariant of one object over arbitrary method-call sequences ------------- *)
+Definition objI (n : nat) (ob : obj) (fs : fsys) : Prop :=
+  (ob_tf ob = FBin \/ ob_tf ob = FCbin) /\ inv NP24 n fs /\
+  (ob_checked ob = true -> shanks_ok n fs) /\
+  (fs (PFile Orig (ob_tf ob)) <> Absent -> orig_ok fs) /\
+  (ob_closed ob = true -> fs (PFile Orig (ob_tf ob)) = Absent).
+
+(* the adversary of the model (damage to a shank file) is not allowed to act in a direct
+   check_NP24() call: there it could destroy the only copy after the original is gone, which no
+   converter can prevent *)
+Definition admissible (c : call) : bool := match c with CCheck _ (Some _) => false | _ => true end.
+
+Lemma obj_call_np24 : forall n w ob fs c ob' o plan st al,
+  obj_call NP24 n w ob fs c = (ob', o) -> refused ob fs c = false ->
+  call_plan NP24 n w ob fs c = Some (plan, st, al) ->
+  exists c1 rs', exec (firstn c1 plan) (mkR fs (start_flag NP24 ob c)) = (rs', None) /\
+    out_fs o = r_fs rs' /\ ob_checked ob' = r_checked rs' /\ ob_tf ob' = ob_tf ob /\
+    ob_closed ob' = ob_closed ob ||
+      (present fs (PFile Orig (ob_tf ob)) && negb (present (r_fs rs') (PFile Orig (ob_tf ob)))).
+Proof.
+  intros n w ob fs c ob' o plan st al H Hr Hp. unfold obj_call in H. rewrite Hr, Hp in H. cbv zeta in H.
+  destruct (exec (match call_crash c with Some k => firstn k plan | None => plan end)
+                 (mkR fs (start_flag NP24 ob c))) as [rs' e] eqn:E.
+  inversion H; subst ob' o; clear H. cbn [out_fs ob_checked ob_tf ob_closed].
   destruct (exec_prefix _ _ _ _ E) as [c0 [_ Hx]].
-  destruct (ob_closed ob) eqn:Ecl.
-  - (* the object has closed its reader: nothing is promised about the files, only about the flag *)
-    split; [|discriminate]. unfold objJ. cbn [ob_opts ob_checked ob_tf ob_closed orb].
-    split; [|split; [exact Jtf | discriminate]].
-    intros Hp. rewrite <- (Jc Hp). change (r_checked rs' = r_checked (mkR fs (ob_checked ob))).
-    eapply exec_checked; [exact Hx|].
-    intros s Hs. apply In_firstn in Hs.
-    assert (Hin : In s (prep24 ow fs n ++ [SFail (ob_tf ob)])).
-    { subst pl. destruct cr as [k|]; [apply In_firstn in Hs|];
-        destruct (already24 ow fs n); auto; apply in_or_app; left; exact Hs. }
-    apply in_app_or in Hin as [Hin|[<-|[]]]; [|reflexivity].
-    apply (no_verify_in _ (prep24_noverify ow fs n)). exact Hin.
-  - destruct (Jo eq_refl) as [Hinv [Hok Hpr]].
-    assert (Hx' : exists c1, exec (firstn c1 (plan24 n w (ob_opts ob) ow cp (ob_tf ob) fs)) (mkR fs (ob_checked ob))
-                             = (rs', None)).
-    { subst pl. destruct cr as [k|]; [rewrite firstn_firstn in Hx|]; eauto. }
-    destruct Hx' as [c1 Hx1].
-    destruct (np24_prefix_gen _ _ _ _ _ _ _ _ _ _ Jc Jtf Hok Hinv Hx1) as [Hinv' [_ [Hoth Htfc]]].
-    split; [|intros _; exact Hinv'].
-    unfold objJ. cbn [ob_opts ob_checked ob_tf ob_closed orb].
-    split; [|split; [exact Jtf|]].
-    + intros Hp. rewrite <- (Jc Hp). change (r_checked rs' = r_checked (mkR fs (ob_checked ob))).
-      eapply exec_checked; [exact Hx1|].
-      intros s Hs. apply In_firstn in Hs.
-      apply (no_verify_in _ (plan24_noverify n w (ob_opts ob) ow cp (ob_tf ob) fs Hp)). exact Hs.
-    + intros Hcl'. apply andb_false_iff in Hcl'.
-      assert (Hp' : r_fs rs' (PFile Orig (ob_tf ob)) <> Absent).
-      { destruct Hcl' as [Hc|Hc].
-        - apply present_false in Hc. contradiction.
-        - apply negb_false_iff in Hc. apply present_true in Hc. exact Hc. }
-      assert (Hsame : forall f, r_fs rs' (PFile Orig f) = fs (PFile Orig f)).
+  destruct (call_crash c) as [k|]; [rewrite firstn_firstn in Hx|]; eauto 10.
+Qed.
+
+Lemma objI_step : forall n w ob fs c ob' o,
+  objI n ob fs -> admissible c = true -> obj_call NP24 n w ob fs c = (ob', o) -> objI n ob' (out_fs o).
+Proof.
+  intros n w ob fs c ob' o HI Hadm H.
+  destruct (refused ob fs c) eqn:Er.
+  { unfold obj_call in H. rewrite Er in H. inversion H; subst. exact HI. }
+  destruct (call_plan NP24 n w ob fs c) as [[[plan st] al]|] eqn:Ep.
+  2:{ unfold obj_call in H. rewrite Er, Ep in H. inversion H; subst. exact HI. }
+  destruct (obj_call_np24 _ _ _ _ _ _ _ _ _ _ H Er Ep) as [c1 [rs' [Hx [Hfs [Hck [Htf Hcl]]]]]].
+  destruct HI as [Jtf [Jinv [JK [Jok Jcl]]]].
+  rewrite Hfs. unfold objI. rewrite Hck, Htf, Hcl.
+  (* the call left the files alone *)
+  assert (Hsame : r_fs rs' = fs -> (r_checked rs' = true -> ob_checked ob = true) ->
+            (ob_tf ob = FBin \/ ob_tf ob = FCbin) /\ inv NP24 n (r_fs rs') /\
+            (r_checked rs' = true -> shanks_ok n (r_fs rs')) /\
+            (r_fs rs' (PFile Orig (ob_tf ob)) <> Absent -> orig_ok (r_fs rs')) /\
+            (ob_closed ob || (present fs (PFile Orig (ob_tf ob)) &&
+                              negb (present (r_fs rs') (PFile Orig (ob_tf ob)))) = true ->
+             r_fs rs' (PFile Orig (ob_tf ob)) = Absent)).
+  { intros -> Hc. rewrite andb_negb_r, orb_false_r.
+    split; [exact Jtf|]. split; [exact Jinv|]. split; [intros H0; apply JK; apply Hc; exact H0|].
+    split; [exact Jok | exact Jcl]. }
+  destruct c as [ow cr cp|cr cp|cr|o2]; cbn [call_plan] in Ep.
+  - (* process() *)
+    unfold refused in Er. cbn [is_process andb] in Er. apply negb_false_iff in Er.
+    assert (Hpr : fs (PFile Orig (ob_tf ob)) <> Absent) by (apply present_true; exact Er).
+    destruct (ob_closed ob) eqn:Ecl; [exfalso; apply Hpr; apply Jcl; reflexivity|].
+    inversion Ep; subst plan st al; clear Ep. cbn [start_flag] in Hx.
+    pose proof (Jok Hpr) as Hok.
+    destruct (np24_prefix_gen _ _ _ _ _ _ _ _ _ _ (fun _ => eq_refl) Jtf Hok Jinv Hx) as [Hinv' [_ [Hoth Htfc]]].
+    split; [exact Jtf|]. split; [exact Hinv'|].
+    split; [intros Hc; eapply plan24_prefix_K; eauto|].
+    split.
+    + intros Hp'. assert (Hsm : forall f, r_fs rs' (PFile Orig f) = fs (PFile Orig f)).
       { intros f. destruct (fkind_eqb f (ob_tf ob)) eqn:Ef.
         - apply fkind_eqb_eq in Ef. subst f. destruct Htfc as [Heq|Ha]; [exact Heq | contradiction].
         - apply Hoth. intros ->. rewrite (proj2 (fkind_eqb_eq _ _) eq_refl) in Ef. discriminate. }
-      destruct (frame_inv NP24 n fs (r_fs rs') Hsame Hok Hinv) as [Hok' _].
-      split; [exact Hinv'|]. split; [exact Hok'|]. exact Hp'.
+      exact (proj1 (frame_inv NP24 n fs (r_fs rs') Hsm Hok Jinv)).
+    + cbn [orb]. rewrite Er. cbn [andb]. intros Hn. apply negb_true_iff in Hn. apply present_false. exact Hn.
+  - (* check_NP24() *)
+    destruct cp; [discriminate|]. destruct (ob_fullbin ob); [|discriminate].
+    inversion Ep; subst plan st al; clear Ep. cbn [start_flag verify24 app] in Hx.
+    destruct c1 as [|[|c1]]; cbn [firstn] in Hx.
+    + cbn in Hx. inversion Hx; subst rs'. apply Hsame; auto.
+    + cbn in Hx. inversion Hx; subst rs'. apply Hsame; [reflexivity | discriminate].
+    + rewrite firstn_nil in Hx. cbn in Hx.
+      destruct (all_ap_complete fs n) eqn:Eall; [|discriminate]. inversion Hx; subst rs'; cbn [r_fs r_checked].
+      rewrite andb_negb_r, orb_false_r. repeat split; auto.
+      * apply Jinv. * apply Jinv. * apply Jinv.
+      * left. apply (all_ap_complete_spec2 _ _ Eall). assumption.
+      * apply (all_ap_complete_spec2 _ _ Eall). assumption.
+  - (* delete_NP24() *)
+    destruct (o_del (ob_opts ob)); [|discriminate]. inversion Ep; subst plan st al; clear Ep.
+    cbn [start_flag] in Hx.
+    destruct c1 as [|c1]; cbn [firstn] in Hx.
+    + cbn in Hx. inversion Hx; subst rs'. apply Hsame; auto.
+    + rewrite firstn_nil in Hx. cbn in Hx. destruct (ob_checked ob) eqn:Eck.
+      2:{ inversion Hx; subst rs'. apply Hsame; auto. }
+      unfold unlink in Hx. cbn [r_fs r_checked] in Hx.
+      destruct (present fs (PFile Orig (ob_tf ob))) eqn:Epr; [|discriminate].
+      inversion Hx; subst rs'; cbn [r_fs r_checked].
+      pose proof (JK eq_refl) as Hsh.
+      assert (Hsh' : shanks_ok n (upd fs (PFile Orig (ob_tf ob)) Absent)) by (apply shanks_ok_upd_orig; exact Hsh).
+      destruct Jinv as [Hm [Hb _]].
+      split; [exact Jtf|]. split.
+      { unfold inv. split; [|split].
+        - destruct Jtf as [-> | ->]; upd_simp; exact Hm.
+        - destruct Jtf as [E | E]; rewrite E; upd_simp; [discriminate | exact Hb].
+        - right. split; [reflexivity | exact Hsh']. }
+      split; [intros _; exact Hsh'|]. split.
+      * rewrite upd_same. intros Hne. contradiction.
+      * intros _. apply upd_same.
+  - (* attribute assignment *)
+    inversion Ep; subst plan st al; clear Ep. rewrite firstn_nil in Hx. cbn in Hx. inversion Hx; subst rs'.
+    apply Hsame; auto.
 Qed.
 
-Definition is_process (c : call) : bool := match c with CProcess _ _ _ => true | _ => false end.
-
-Lemma obj_seq_J : forall n w cs ob fs,
-  forallb is_process cs = true -> objJ n ob fs ->
-  objJ n (fst (obj_after NP24 n w ob fs cs)) (snd (obj_after NP24 n w ob fs cs)).
+Lemma objI_seq : forall n w cs ob fs,
+  forallb admissible cs = true -> objI n ob fs ->
+  objI n (fst (obj_after NP24 n w ob fs cs)) (snd (obj_after NP24 n w ob fs cs)).
 Proof.
-  intros n w. induction cs as [|c cs IH]; intros ob fs Hall HJ; cbn [obj_after]; [exact HJ|].
-  cbn in Hall. apply andb_true_iff in Hall as [Hc Hall]. destruct c; try discriminate.
-  destruct (obj_call NP24 n w ob fs (CProcess ow crash corrupt)) as [ob' o] eqn:E.
-  apply IH; [exact Hall|]. exact (proj1 (obj_process_step _ _ _ _ _ _ _ _ _ HJ E)).
+  intros n w. induction cs as [|c cs IH]; intros ob fs Hall HI; cbn [obj_after]; [exact HI|].
+  cbn in Hall. apply andb_true_iff in Hall as [Hc Hall].
+  destruct (obj_call NP24 n w ob fs c) as [ob' o] eqn:E.
+  apply IH; [exact Hall|]. eapply objI_step; eauto.
 Qed.
 
-Lemma obj_after_app : forall kd n w cs1 cs2 ob fs,
-  obj_after kd n w ob fs (cs1 ++ cs2) =
-  obj_after kd n w (fst (obj_after kd n w ob fs cs1)) (snd (obj_after kd n w ob fs cs1)) cs2.
-Proof.
-  intros kd n w. induction cs1 as [|c cs1 IH]; intros cs2 ob fs; cbn [app obj_after]; [reflexivity|].
-  destruct (obj_call kd n w ob fs c) as [ob' o]. apply IH.
-Qed.
-
-(* any number of process() calls (any overwrite flag, interrupted anywhere, with or without a
-   damaged shank file) on one object with fixed options: every call made while the object has not
-   yet deleted the original leaves the original recoverable *)
-Lemma object_process_sequences_safe : forall n w cs ow cr cp ob fs,
-  forallb is_process cs = true -> objJ n ob fs ->
-  ob_closed (fst (obj_after NP24 n w ob fs cs)) = false ->
-  inv NP24 n (snd (obj_after NP24 n w ob fs (cs ++ [CProcess ow cr cp]))).
-Proof.
-  intros n w cs ow cr cp ob fs Hall HJ Hcl. rewrite obj_after_app.
-  pose proof (obj_seq_J n w cs ob fs Hall HJ) as HJ1.
-  set (ob1 := fst (obj_after NP24 n w ob fs cs)) in *. set (fs1 := snd (obj_after NP24 n w ob fs cs)) in *.
-  cbn [obj_after]. destruct (obj_call NP24 n w ob1 fs1 (CProcess ow cr cp)) as [ob' o] eqn:E. cbn [snd].
-  exact (proj2 (obj_process_step _ _ _ _ _ _ _ _ _ HJ1 E) Hcl).
-Qed.
-
-Lemma new_obj_J : forall n fs o (c : bool),
+Lemma new_obj_I : forall n fs o (c : bool),
   inv NP24 n fs -> input_state NP24 n fs (if c then TCbin else TBin) = Present ->
-  objJ n (new_obj o c) fs.
+  objI n (new_obj o c) fs.
 Proof.
   intros n fs o c Hinv Hin. destruct (input_present_orig _ _ _ _ Hin) as [_ [HB HC]].
-  unfold objJ, new_obj. cbn [ob_opts ob_checked ob_tf ob_closed].
-  split; [reflexivity|]. split; [destruct c; auto|]. intros _. split; [exact Hinv|].
-  destruct c.
-  - destruct (HC eq_refl) as [A B]. split; [right; auto | rewrite A; discriminate].
-  - split; [left; auto | rewrite (HB eq_refl); discriminate].
+  unfold objI, new_obj. cbn [ob_opts ob_checked ob_tf ob_closed].
+  split; [destruct c; auto|]. split; [exact Hinv|]. split; [discriminate|]. split; [|discriminate].
+  intros _. destruct c; [right; apply HC; reflexivity | left; apply HB; reflexivity].
+Qed.
+
+(* process() on an object whose original is gone raises before touching anything *)
+Lemma process_without_original : forall kd n w ob fs ow cr cp,
+  fs (PFile Orig (ob_tf ob)) = Absent ->
+  obj_call kd n w ob fs (CProcess ow cr cp) = (ob, mkOut fs (Raised EFileNotFound) (ob_checked ob) 2 false []).
+Proof.
+  intros kd n w ob fs ow cr cp H. unfold obj_call, refused. cbn [is_process andb].
+  rewrite (proj2 (present_false _ _) H). reflexivity.
+Qed.
+
+Lemma exec_executed : forall l rs rs' e,
+  exec l rs = (rs', e) -> exec (firstn (nexec l rs) l) rs = (rs', None).
+Proof.
+  induction l as [|s l IH]; intros rs rs' e H.
+  - cbn in *. inversion H; reflexivity.
+  - cbn [exec nexec] in *. destruct (step_sem s rs) as [rs1|e1] eqn:E.
+    + cbn [firstn exec]. rewrite E. eapply IH; eauto.
+    + inversion H; subst. reflexivity.
+Qed.
+
+(* an NP2.4 process() call that actually ran (the original exists) clears the flag first: if it ends
+   with check_completed set, a check_NP24 step of THIS call succeeded on complete shank files *)
+Lemma process_flag_from_this_call : forall n w ob fs ow cr cp ob' o,
+  fs (PFile Orig (ob_tf ob)) <> Absent ->
+  obj_call NP24 n w ob fs (CProcess ow cr cp) = (ob', o) -> ob_checked ob' = true ->
+  exists l1 m l2 rsv, out_trace o = l1 ++ SVerify m :: l2 /\ exec l1 (mkR fs false) = (rsv, None) /\
+    forall k, (k < m)%nat -> r_fs rsv (PFile (Shank k Ap) FBin) = Complete.
+Proof.
+  intros n w ob fs ow cr cp ob' o Hpr H Hck. unfold obj_call, refused in H. cbn [is_process andb] in H.
+  rewrite (proj2 (present_true _ _) Hpr) in H. cbn [negb] in H.
+  cbn [call_plan call_crash start_flag] in H. cbv zeta in H.
+  match type of H with context [exec ?pl0 _] => set (pl := pl0) in * end.
+  destruct (exec pl (mkR fs false)) as [rs' e] eqn:E.
+  inversion H; subst ob' o; clear H. cbn [out_trace ob_checked] in *.
+  exact (check_completed_sound _ (mkR fs false) rs' eq_refl (exec_executed _ _ _ _ E) Hck).
+Qed.
+
+(* NP2.1: a forced re-run on an object that is still usable completes with valid lf output, whatever
+   the object did before (in particular after its own compress_NP21 replaced the reader: the
+   reopened reader is unsorted, the lf file has the expected bytes) *)
+Lemma np21_object_forced_rerun : forall n w' ob fs cp ob' o,
+  ob_closed ob = false -> fs (PFile Orig (ob_tf ob)) <> Absent ->
+  (ob_tf ob = FBin -> fs (PFile Orig FBin) = Complete) ->
+  obj_call NP21 n (S w') ob fs (CProcess true None cp) = (ob', o) ->
+  out_outcome o = Status 1 /\ out_fs o (PFile Lf21 FMeta) = Complete /\
+  out_ok (o_comp (ob_opts ob)) (out_fs o) Lf21.
+Proof.
+  intros n w' ob fs cp ob' o Hcl Hpr Htf H. unfold obj_call, refused in H. cbn [is_process andb] in H.
+  rewrite (proj2 (present_true _ _) Hpr) in H. cbn [negb] in H.
+  cbn [call_plan call_crash start_flag] in H. rewrite Hcl in H.
+  assert (Hal : already21 true fs = false) by (unfold already21; apply andb_false_r).
+  rewrite Hal in H. cbv zeta in H.
+  destruct (forced21_exec_gen w' (ob_opts ob) (ob_tf ob) fs (ob_checked ob) Htf) as [rs' [Hx [Hm [Hl _]]]].
+  rewrite Hx in H. rewrite Nat.ltb_irrefl in H. inversion H; subst ob' o; clear H.
+  cbn [out_outcome out_fs]. repeat split; auto.
 Qed.
